@@ -314,9 +314,8 @@ Qed.
 Lemma passthrough_pic_timing_hevc par pl m :
   decode_pic_timing_hevc par pl = Ok m -> pass_payload m = pl /\ pass_size m = lenN pl.
 Proof.
-  unfold decode_pic_timing_hevc.
-  repeat match goal with |- context [if ?c then _ else _] => destruct c end;
-    try discriminate; intros E; inversion E; split; reflexivity.
+  unfold decode_pic_timing_hevc. destruct (hevc_final par pl) as [s| | |]; cbn [rbind]; try discriminate.
+  destruct (rerr s); [discriminate|]. intros E. inversion E. split; reflexivity.
 Qed.
 
 Lemma passthrough_all :
